@@ -921,6 +921,19 @@ def _parse_phase_numpydoc_and_google(
                                                 and scanned[return_tokens[0]][
                                                     0
                                                 ].isspace()
+                                                # A return entry may be typed without being described
+                                                else {
+                                                    "typ": scanned[return_tokens[0]][0]
+                                                    .strip()[:-1]
+                                                    .rstrip()
+                                                }
+                                                if len(scanned[return_tokens[0]]) == 1
+                                                and isinstance(
+                                                    scanned[return_tokens[0]][0], str
+                                                )
+                                                and scanned[return_tokens[0]][0]
+                                                .rstrip()
+                                                .endswith(":")
                                                 else {
                                                     "doc": (
                                                         white_spacer(
